@@ -50,6 +50,9 @@ type MemFS struct {
 	avfs.UMaskFn                // UMaskFn provides UMask functions to file systems.
 	avfs.FeaturesFn             // FeaturesFn provides features functions to a file system or an identity manager.
 	avfs.OSTypeFn               // OSTypeFn provides OS type functions to a file system or an identity manager.
+
+	// renameMu makes the check of renameSeq and the move of an entry by Rename one step.
+	renameMu *sync.RWMutex
 }
 
 // MemFile represents an open file descriptor.
